@@ -13,7 +13,7 @@
 (*   off  offset ([has, bk, bv, ek, ev])                                    *)
 (*   op,v data operator ("=", "!=", ">", ">=", "<", "<=") and typed value   *)
 (*   lb,le LIMIT bounds              u    members of a UNION                *)
-EXTENDS StamStore
+EXTENDS StamRead
 
 NoVal == NullVal
 C0 == [k |-> "", a |-> "", b |-> "", q |-> FALSE, rec |-> FALSE, off |-> NoOffset, op |-> "", v |-> NoVal, lb |-> 0, le |-> 0, u |-> <<>>]
@@ -95,6 +95,174 @@ PrintQ(q) ==
     \o (IF q.subs # <<>>
         THEN <<KW("{")>> \o Flatten([i \in DOMAIN q.subs |-> PrintQ(q.subs[i]) \o (IF i < Len(q.subs) THEN <<KW("|")>> ELSE <<>>)]) \o <<KW("}")>>
         ELSE <<>>)
+
+
+----------------------------------------------------------------------------
+(* C08: the meaning of SELECT queries (result types ANNOTATION and DATA).    *)
+(* An item is [t, a, b, c]: "ann" a; "data" a = set, b = data; "text"        *)
+(* a = resource, b, c = range; "res" a; "none".  A row is a sequence of      *)
+(* items, one per query level.  Constraints that name identifiers which do   *)
+(* not resolve make the query fail (ok = FALSE).                              *)
+Item(t, a, b, c) == [t |-> t, a |-> a, b |-> b, c |-> c]
+NoneItem == Item("none", 0, 0, 0)
+AnnItem(x) == Item("ann", x, 0, 0)
+DataItem(s, d) == Item("data", s, d, 0)
+
+EnvGet(env, name) == IF \E i \in DOMAIN env : env[i][1] = name THEN env[CHOOSE i \in DOMAIN env : env[i][1] = name][2] ELSE NoneItem
+
+\* the documented comparison semantics for the value pool (val: a data value, (op, v): the operator)
+TestEq(val, v) ==
+    CASE v.t = "any" -> TRUE
+      [] v.t = "null" -> val.t = "null"
+      [] v.t = "bool" -> val.t = "bool" /\ val.n = v.n
+      [] v.t = "str" -> (val.t = "str" /\ val.s = v.s) \/ (val.t = "bool" /\ val.n = 0)   \* false equals any string that is not a "yes" word
+      [] v.t = "int" -> val.t = "int" /\ val.n = v.n
+      [] v.t = "float" -> val.t = "float" /\ val.n = v.n
+      [] v.t = "datetime" -> val.t = "datetime" /\ val.n = v.n
+      [] OTHER -> FALSE
+TestValue(val, op, v) ==
+    CASE op = "=" -> TestEq(val, v)
+      [] op = "!=" -> ~TestEq(val, v)
+      [] op = ">" -> val.t = v.t /\ v.t \in {"int", "float", "datetime"} /\ val.n > v.n
+      [] op = ">=" -> val.t = v.t /\ v.t \in {"int", "float", "datetime"} /\ val.n >= v.n
+      [] op = "<" -> val.t = v.t /\ v.t \in {"int", "float", "datetime"} /\ val.n < v.n
+      [] op = "<=" -> val.t = v.t /\ v.t \in {"int", "float", "datetime"} /\ val.n <= v.n
+      [] OTHER -> FALSE
+
+DataValOf(st, p) == st.sets[p[1]].data[p[2]].val
+DataKeyOf(st, p) == st.sets[p[1]].data[p[2]].key
+LiveData(st) == UNION {{<<s, d>> : d \in {d \in 1..Len(st.sets[s].data) : st.sets[s].data[d].alive}} : s \in LiveSets(st)}
+AnnData(st, x) == Range(st.anns[x].data)
+
+AnnsOnRange(st, r, b, e) == {x \in LiveAnns(st) : HasLeaf(st.anns[x], LAMBDA l : IsTextLeaf(l) /\ LeafRes(l) = r /\ LeafRange(st, l) = <<b, e>>)}
+RECURSIVE TargetsRec(_, _, _)
+TargetsRec(st, X, seen) ==
+    LET N == UNION {Range(AnnTargets(st, x)) : x \in X} \ seen
+    IN IF N = {} THEN seen ELSE TargetsRec(st, N, seen \cup N)
+
+\* text selections an item stands for: <<res, b, e>>
+ItemRanges(st, it) ==
+    CASE it.t = "text" -> {<<it.a, it.b, it.c>>}
+      [] it.t = "ann" -> Range(AnnText(st, it.a))
+      [] OTHER -> {}
+
+RelOp(kw) == [op |-> CASE kw = "EQUALS" -> "Equals" [] kw = "EMBEDS" -> "Embeds" [] kw = "EMBEDDED" -> "Embedded" [] kw = "OVERLAPS" -> "Overlaps"
+                       [] kw = "PRECEDES" -> "Precedes" [] kw = "SUCCEEDS" -> "Succeeds" [] kw = "SAMEBEGIN" -> "SameBegin"
+                       [] kw = "SAMEEND" -> "SameEnd" [] kw = "BEFORE" -> "Before" [] OTHER -> "After",
+              all |-> FALSE, negate |-> FALSE, ws |-> kw \in {"PRECEDES", "SUCCEEDS"}, limit |-> 0]
+
+\* known text selections related to the item (a set of <<res, b, e>>)
+RelatedOfItem(st, it, kw) ==
+    LET rs == ItemRanges(st, it)
+    IN IF rs = {} THEN {}
+       ELSE LET r == (CHOOSE x \in rs : TRUE)[1]
+                ref == SortRanges({<<x[2], x[3]>> : x \in {y \in rs : y[1] = r}})
+                got == RelatedTextExpected(st, [res |-> ByH(r), A |-> ref, o |-> RelOp(kw)]).ranges
+            IN {<<r, got[i][1], got[i][2]>> : i \in DOMAIN got}
+
+QFail == [ok |-> FALSE, S |-> {}]
+QOk(S) == [ok |-> TRUE, S |-> S]
+
+\* annotations satisfying one constraint: [ok, S]
+RECURSIVE SatAnn(_, _, _)
+SatAnn(st, env, c) ==
+    LET s == ResolveSet(st, ById(c.a))
+        k == IF s = 0 THEN 0 ELSE ResolveKey(st.sets[s], ById(c.b))
+        it == EnvGet(env, c.a)
+    IN CASE c.k = "Id" -> LET x == ResolveAnn(st, ById(c.a)) IN IF x = 0 THEN QFail ELSE QOk({x})
+         [] c.k = "Key" -> IF k = 0 THEN QFail
+                           ELSE IF c.q THEN QOk(Range(AnnsOnKey(st, s, k))) ELSE QOk(Range(AnnsUsingKey(st, s, k)))
+         [] c.k = "KeyVal" -> IF k = 0 THEN QFail
+                              ELSE QOk({x \in LiveAnns(st) : \E p \in AnnData(st, x) : p[1] = s /\ DataKeyOf(st, p) = k /\ TestValue(DataValOf(st, p), c.op, c.v)})
+         [] c.k = "Value" -> QOk({x \in LiveAnns(st) : \E p \in AnnData(st, x) : TestValue(DataValOf(st, p), c.op, c.v)})
+         [] c.k = "Res" -> LET r == ResolveRes(st, ById(c.a))
+                           IN IF r = 0 THEN QFail ELSE IF c.q THEN QOk(Range(AnnsOnResMeta(st, r))) ELSE QOk(Range(AnnsOnResText(st, r)))
+         [] c.k = "Set" -> IF s = 0 THEN QFail
+                           ELSE IF c.q THEN QOk(Range(AnnsOnSet(st, s))) ELSE QOk({x \in LiveAnns(st) : \E p \in AnnData(st, x) : p[1] = s})
+         [] c.k = "Ann" -> LET y == ResolveAnn(st, ById(c.a))
+                           IN IF y = 0 THEN QFail
+                              ELSE IF c.q THEN QOk(Range(AnnsOnAnn(st, y)))
+                              ELSE IF c.rec THEN QOk(TargetsRec(st, {y}, {})) ELSE QOk(Range(AnnTargets(st, y)))
+         [] c.k = "Text" -> LET codes == [i \in DOMAIN c.v.l |-> c.v.l[i].n]
+                                hits(r) == IF c.b = "nocase" THEN FindAllNoCase(st.res[r].text, 0, Len(st.res[r].text), codes)
+                                           ELSE FindAll(st.res[r].text, 0, Len(st.res[r].text), codes)
+                            IN QOk(UNION {UNION {AnnsOnRange(st, r, hits(r)[i][1], hits(r)[i][2]) : i \in DOMAIN hits(r)} : r \in LiveRes(st)})
+         [] c.k = "TextVar" -> IF it.t \notin {"text", "ann"} THEN QFail
+                               ELSE QOk(UNION {AnnsOnRange(st, x[1], x[2], x[3]) : x \in ItemRanges(st, it)})
+         [] c.k = "Relation" -> IF it.t \notin {"text", "ann"} THEN QFail
+                                ELSE QOk(UNION {AnnsOnRange(st, x[1], x[2], x[3]) : x \in RelatedOfItem(st, it, c.b)})
+         [] c.k = "AnnVar" -> IF it.t # "ann" THEN QFail
+                              ELSE IF c.q THEN QOk(Range(AnnsOnAnn(st, it.a)))
+                              ELSE IF c.rec THEN QOk(TargetsRec(st, {it.a}, {})) ELSE QOk(Range(AnnTargets(st, it.a)))
+         [] c.k = "ResVar" -> IF it.t # "res" THEN QFail
+                              ELSE IF c.q THEN QOk(Range(AnnsOnResMeta(st, it.a))) ELSE QOk(Range(AnnsOnResText(st, it.a)))
+         [] c.k = "DataVar" -> IF it.t # "data" THEN QFail ELSE QOk(Range(AnnsUsingData(st, it.a, it.b)))
+         [] c.k = "Union" -> LET rs == [i \in DOMAIN c.u |-> SatAnn(st, env, c.u[i])]
+                             IN IF \E i \in DOMAIN rs : ~rs[i].ok THEN QFail ELSE QOk(UNION {rs[i].S : i \in DOMAIN rs})
+         [] OTHER -> QFail
+
+\* data items satisfying one constraint
+SatData(st, env, c) ==
+    LET s == ResolveSet(st, ById(c.a))
+        k == IF s = 0 THEN 0 ELSE ResolveKey(st.sets[s], ById(c.b))
+        it == EnvGet(env, c.a)
+    IN CASE c.k = "Key" -> IF k = 0 THEN QFail ELSE QOk({p \in LiveData(st) : p[1] = s /\ DataKeyOf(st, p) = k})
+         [] c.k = "KeyVal" -> IF k = 0 THEN QFail ELSE QOk({p \in LiveData(st) : p[1] = s /\ DataKeyOf(st, p) = k /\ TestValue(DataValOf(st, p), c.op, c.v)})
+         [] c.k = "Value" -> QOk({p \in LiveData(st) : TestValue(DataValOf(st, p), c.op, c.v)})
+         [] c.k = "Set" -> IF s = 0 THEN QFail ELSE QOk({p \in LiveData(st) : p[1] = s})
+         [] c.k = "Ann" -> LET y == ResolveAnn(st, ById(c.a))
+                           IN IF y = 0 THEN QFail
+                              ELSE IF c.q THEN QOk({<<l.a, l.b>> : l \in {m \in Range(st.anns[y].leaves) : m.k = "Data"}})
+                              ELSE QOk(AnnData(st, y))
+         [] c.k = "AnnVar" -> IF it.t # "ann" THEN QFail
+                              ELSE IF c.q THEN QOk({<<l.a, l.b>> : l \in {m \in Range(st.anns[it.a].leaves) : m.k = "Data"}})
+                              ELSE QOk(AnnData(st, it.a))
+         [] c.k = "TextVar" -> IF it.t # "text" THEN QFail
+                               ELSE QOk(UNION {AnnData(st, x) : x \in AnnsOnRange(st, it.a, it.b, it.c)})
+         [] OTHER -> QFail
+
+ItemsOf(rt, S) == IF rt = "ANNOTATION" THEN {AnnItem(x) : x \in S} ELSE {DataItem(p[1], p[2]) : p \in S}
+AllOf(st, rt) == IF rt = "ANNOTATION" THEN LiveAnns(st) ELSE LiveData(st)
+
+\* items of one query level (LIMIT constraints are not part of the meaning: see QueryOK)
+LevelItems(st, env, q) ==
+    LET cs == SelectSeq(q.cs, LAMBDA c : c.k # "Limit")
+        rs == [i \in DOMAIN cs |-> IF q.rt = "ANNOTATION" THEN SatAnn(st, env, cs[i]) ELSE SatData(st, env, cs[i])]
+    IN IF \E i \in DOMAIN rs : ~rs[i].ok THEN QFail
+       ELSE QOk(ItemsOf(q.rt, {x \in AllOf(st, q.rt) : \A i \in DOMAIN rs : x \in rs[i].S}))
+
+\* rows of a query with at most one sub-query per level, nested iteration: [ok, rows (a set of sequences of items)]
+RECURSIVE EvalQ(_, _, _)
+EvalQ(st, env, q) ==
+    LET lv == LevelItems(st, env, q)
+    IN IF ~lv.ok THEN [ok |-> FALSE, rows |-> {}]
+       ELSE IF q.subs = <<>> THEN [ok |-> TRUE, rows |-> {<<it>> : it \in lv.S}]
+       ELSE LET sub == q.subs[1]
+                inner(it) == EvalQ(st, Append(env, <<q.name, it>>), sub)
+            IN IF \E it \in lv.S : ~inner(it).ok THEN [ok |-> FALSE, rows |-> {}]
+               ELSE [ok |-> TRUE,
+                     rows |-> UNION {IF inner(it).rows = {}
+                                     THEN (IF sub.opt THEN {<<it>>} ELSE {})    \* an optional sub-query without results leaves the outer row as it is
+                                     ELSE {<<it>> \o r : r \in inner(it).rows} : it \in lv.S}]
+
+\* LIMIT b e on a sequence: begin b (negative: from the end), end e (0 or negative: from the end)
+Slice(rows, b, e) ==
+    LET n == Len(rows)
+        lo == IF b < 0 THEN Max2(n + b, 0) ELSE Min2(b, n)
+        hi == IF e <= 0 THEN Max2(n + e, 0) ELSE Min2(e, n)
+    IN IF lo >= hi THEN <<>> ELSE SubSeq(rows, lo + 1, hi)
+
+\* a Query event: a = [q, form, perm]; api = [ok, rows, base]  (base: the same query without its LIMIT constraint)
+QueryLimit(q) == LET ls == SelectSeq(q.cs, LAMBDA c : c.k = "Limit") IN IF ls = <<>> THEN <<>> ELSE <<ls[1].lb, ls[1].le>>
+QueryOK(st, r) ==
+    LET q == r.a.q
+        exp == EvalQ(st, <<>>, q)
+        lim == QueryLimit(q)
+    IN IF ~exp.ok THEN r.outcome = "err"
+       ELSE /\ r.outcome = "ok" /\ r.api.ok
+            /\ NoDup(r.api.base)                                   \* no item twice
+            /\ Range(r.api.base) = exp.rows                        \* exactly the items that satisfy all constraints
+            /\ r.api.rows = (IF lim = <<>> THEN r.api.base ELSE Slice(r.api.base, lim[1], lim[2]))
 
 ----------------------------------------------------------------------------
 (* C09: what a Parse event must look like.                                  *)
